@@ -220,6 +220,7 @@ class Program:
                 root = fn.d.get("root")
                 if root in self.fns:
                     self.fns[root].closures.append(fn)
+        self.inlined_consts = inline_literal_consts(self)
         self.field_renames = canonicalise_fields(self)
         self.fn_renames = canonicalise_fns(self)
 
@@ -429,6 +430,43 @@ FIELD_ROLES = {
     "rbx_dom_weak::dom::WeakDomDescendants": {"queue": r"VecDeque<rbx_types::referent::Ref>", "dom": r"rbx_dom_weak::dom::WeakDom$"},
     "rbx_types::shared_string::SharedString": {"data": r"Option<alloc::sync::Arc<alloc::vec::Vec<u8>>>", "hash": r"^blake3::Hash$"},
 }
+
+
+def inline_literal_consts(prog):
+    """Module-level `const NAME: T = <string / integer / bool literal>;` of the library crates: every use of NAME in a body
+    is replaced by the literal, so that `ustr("UniqueId")` and `ustr(UNIQUE_ID_PROP)` are the same program to the rules
+    (a named constant in place of a magic value is a pure spelling change).  Returns {const path: value}."""
+    lits = {}
+    for path, fn in prog.fns.items():
+        if not str(fn.dk).startswith("Const") or fn.crate not in LIB_CRATES or fn.body is None:
+            continue
+        b = strip(fn.body)
+        if b.get("k") == "Lit" and b["lit"].get("lk") in ("str", "int", "bool"):
+            lits[path] = b
+    if not lits:
+        return {}
+
+    def rewrite(n):
+        if isinstance(n, dict):
+            if n.get("k") == "Path" and n.get("def") in lits and str(n.get("res", "")).startswith("Const"):
+                lit = lits[n["def"]]
+                keep = {k: v for k, v in n.items() if k in ("sp", "ty", "aty", "adj")}
+                n.clear()
+                n.update({"k": "Lit", "lit": dict(lit["lit"]), "from_const": True})
+                n.update(keep)
+                return
+            for key, v in n.items():
+                if key in ("pat", "pats", "p"):
+                    continue        # patterns keep naming the constant (rules resolve it there)
+                if isinstance(v, (dict, list)):
+                    rewrite(v)
+        elif isinstance(n, list):
+            for v in n:
+                rewrite(v)
+    for fn in prog.fns.values():
+        if fn.body is not None and fn.crate in LIB_CRATES and not str(fn.dk).startswith("Const"):
+            rewrite(fn.body)
+    return {p: b["lit"].get("v") for p, b in lits.items()}
 
 
 def canonicalise_fields(prog):
